@@ -285,6 +285,7 @@ def build_program(prog, residue_check=True, desc=True):
     if any(math.copysign(1.0, c) < 0 and c == 0 for c in d['consts']):
         out['skip'] = out['skip'] or 'negative-zero'
     out['nan_const'] = any(math.isnan(c) or math.isinf(c) for c in d['consts'] + d['params'])
+    out['has_nan'] = any(math.isnan(c) for c in d['consts'] + d['params'])
     out['canon'] = ('OK C=' + ','.join(fmt_frac(c) for c in d['consts'])
                     + ' P=' + ','.join(fmt_frac(c) for c in d['params'])
                     + ' U=' + '|'.join(
